@@ -1,7 +1,7 @@
 (* reconcileCommit followed by the configuration store write (repaired code): what Get reads afterwards. *)
 From Coq Require Import List NArith Bool Lia.
 From OC Require Import Base.Bytes Model.Merge Model.CfgStore
-     Proofs.MergeProofs Proofs.PathProofs Proofs.PruneProofs Proofs.StoreProofs.
+     Proofs.MergeProofs Proofs.TextPathProofs Proofs.PruneProofs Proofs.StoreProofs.
 Import ListNotations.
 Open Scope N_scope.
 
